@@ -48,7 +48,7 @@ def IsValidDataType(str_val, data_type, charset='B', icvn='00401'):
             if not_match_re('ID', str_val, charset, icvn):
                 raise IsValidError
         elif data_type == 'RD8':
-            if '-' in str_val:
+            if str_val.count('-') == 1:
                 (start, end) = str_val.split('-')
                 return IsValidDataType(start, 'D8', charset) and IsValidDataType(end, 'D8', charset)
             else:
